@@ -349,7 +349,7 @@ PROPS = {
                      "EsbuildModel.C20Stdio.session_answers"],
         "open": ["Ctx.data_race_freedom, watch/serve paths: not modelled; data races are searched with the Go race detector",
                  "C20Stdio.decodePacket_never_panics: FALSE of the code for malformed packets from the host process (bytes[0] without a length check; explicit panic for unknown kinds); the host is trusted by design, so this is outside the property (every REQUEST gets a response) and recorded here only",
-                 "asynchronous service commands (build/transform/…), Go→JS requests, pings and concurrent senders are not modelled"],
+                 "serve-request callbacks and the contents of the watch / serve loops are not modelled"],
         "gen_facts": [],
         "kernels": [("ctx", 600, 12000), ("stdio", 3000, 60000)],
         "searches": [("c20-plugins", 200, 5000), ("c20-race", 60, 1500)],
@@ -646,3 +646,18 @@ _extend("C12",
           "C12CssPrint: remaining hypotheses are necessary: no U+0000 (printIdent writes it raw, printQuoted as \\0: both re-read as U+FFFD), valid UTF-8 text (ill-formed byte under ASCIIOnly: known finding c12-escaped-url-function-name), FollowOK (what follows does not continue the name / start an escape; whitespace only under mayNeedWhitespaceAfter)"],
     scope="internal/css_printer/css_printer.go: printIdent, printWithEscape (with isShort), printQuoted, printQuotedWithQuote, bestQuoteCharForString, printIndent, functionMultiLineCommaPeriod, printTokens (MinifyWhitespace, ASCIIOnly, InlineStyle feature; LineLimit 0) — modelled (Impl/CssPrint.lean); re-lexing the printed text of an identifier or string gives back its code points",
     assumptions=["csslex print: fmt.Sprintf(\"%x\") as hexDigitsOf; strings.ToLower compared with ASCII literals only; URL text passed inline instead of through importRecords"])
+
+# stdioasync (C20): the asynchronous part of the stdio service at packet level
+_extend("C20",
+    lean_modules=["EsbuildModel.Props.C20Async"],
+    theorems=_thms("C20Async", "one_response_per_request never_more_responses_than_requests stdin_is_fifo service_request_ids_unique "
+                   "answer_reaches_its_sender stale_answer_panics no_deadlock_under_responsive_host draining_terminates drained_state_is_settled "
+                   "settled_means_answered every_service_request_sent_once writer_is_serial written_packet_decodes dispose_waits cancel_waits "
+                   "honest_host_never_panics honest_host_invariants"),
+    open=["C20Async.cancel_waits in history form is false by design (rebuildWaitGroup.Done() runs before the rebuild's sendPacket); the step form is proved",
+          "C20Async.service_returns: after EOF an honest session ends only if the host also disposes every context by a dispose sent after the context's build response (a dispose taken before createActiveBuild is answered and the context lives on: observed HANG on the real service, canExit = false in the model); not a theorem; the host process is trusted by design",
+          "C20Async: outside honest_host_never_panics the service does panic, as the model says: a response nobody waits for (callback nil) and a build key re-used while its context is alive (createActiveBuild 'Internal error'); the host is trusted by design: observations",
+          "C20Async: response contents, serve-request callbacks, uint32 wrap of nextRequestID, stdout write errors, a host that stops reading stdout, malformed request values: not modelled"],
+    kernels=[("stdioasync", 200, 20000)],
+    scope="cmd/esbuild/service.go: runService (sequential reader loop, single writer goroutine on the unbuffered outgoingPackets channel, keepAliveWaitGroup at EOF, sendPings), sendPacket, sendRequest (id allocation + callbacks under the mutex), handleIncomingPacket (responses: lookup+delete; build/transform/format-msgs/... on their own goroutine; resolve/rebuild/watch/serve/cancel/dispose keyed by build key incl. the reader-side refusals), getActiveBuild/createActiveBuild/destroyActiveBuild, disposeWaitGroup, rebuildWaitGroup/withinRebuildCount/didGetCancel, handleBuildRequest (one-shot, context creation, the OnStart cancel helper) modelled at packet level (Impl/StdioAsync.lean); real runService sessions against a scripted host (cmd/esbuild/verif_async_test.go) are replayed as accepted traces",
+    assumptions=["stdioasync: what a handler computes is abstracted: it may ask the host any number of times and ends only when all those requests have returned (checked by trace inclusion); fewer than 2^31 service->host requests per session; the harness scheduler (trusted only for completeness) places the invisible steps, the Lean driver checks every step, the packets written and the ending; honest host = responses only as answers (each once) + no build key used twice; scheduling is perturbed by random answer delays, not enumerated"])
